@@ -290,6 +290,8 @@ func vfC11Gather(e *vfEnv, r *vfResult, idx int) { //nolint:cyclop
 	})
 	nCycles := 1 + rng.IntN(4)
 	completed := map[int]bool{}
+	maybe := map[int]bool{}
+	var tGather time.Time
 	var modes []string
 	var dones []chan struct{}
 	for c := 0; c < nCycles; c++ {
@@ -299,7 +301,15 @@ func vfC11Gather(e *vfEnv, r *vfResult, idx int) { //nolint:cyclop
 
 				break
 			}
+			// a cycle that was to be cancelled can only be said NOT to have completed when the Restart came well
+			// within the STUN timeout that held it open; on a stalled machine it may have completed (and rightly
+			// emitted its nil) before the Restart: then either outcome is accepted
+			if modes[c-1] == "cancel" && time.Since(tGather) > stunTO/3 {
+				maybe[c-1] = true
+				r.count("c11_cancel_cycles_not_judged_slow_harness", 1)
+			}
 		}
+		tGather = time.Now()
 		if err := a.GatherCandidates(); err != nil {
 			r.violation("gather-refused-after-restart", fmt.Sprintf("GatherCandidates in cycle %d (state New after Restart) failed: %v", c, err), map[string]any{"idx": idx})
 
@@ -400,6 +410,9 @@ func vfC11Gather(e *vfEnv, r *vfResult, idx int) { //nolint:cyclop
 				break
 			}
 			pos++
+		}
+		if maybe[c] {
+			continue
 		}
 		if completed[c] && nils != 1 {
 			r.violation("gather-nil-missing", fmt.Sprintf("cycle %d ran to completion but its candidates were not followed by exactly one nil (log %v)", c, rendered), wit)
